@@ -14,6 +14,10 @@ def run(ctx):
     for a in ("Ctor", "Borrow", "Consume", "Free"):
         if cov.get(a, (0, 0))[1] == 0:
             raise ToolError("vacuity: action %s never taken" % a)
+    if not ctx.quick:
+        # unbounded: TLAPS proves TypeOK / NoInvalidDeref inductive and the step form of FreeOnce for every Addrs / Types
+        nob = tlapm_prove("HandleRegistry_proofs", ["HandleRegistry"])
+        ctx.assumptions.append("thorough tier: tlapm discharged %d proof obligations of HandleRegistry_proofs (Spec => []Inv for unbounded Addrs and Types; FreeOnceStep)" % nob)
     n, calls = (150, 30) if ctx.quick else (3000, 40)
     p = vh(["c31-drive", "--seed", ctx.seed, "--n", n, "--calls", calls], timeout=6000)
     raw = [json.loads(l) for l in p.stdout.splitlines() if l.strip()]
